@@ -109,6 +109,9 @@ pub enum Ev {
     Read(u16),
     /// the peer stops (false) / resumes (true) reading what the endpoint writes
     Win(bool),
+    /// C12 with keep-alive: half a second of virtual time passes while handlers hold the receive window shut
+    /// (the first one is an explorer choice, the following ones are forced until several periods have passed)
+    Wait,
 }
 
 pub struct In {
@@ -127,6 +130,9 @@ pub struct In {
     pub rgates: std::rc::Rc<Gates>,
     pub window_open: bool,
     pub bp_left: u8,
+    /// C12 with keep-alive: half-second steps of virtual time that the (single) pause episode still lasts
+    pub pause_time_left: u32,
+    pub pause_started: bool,
 }
 
 pub fn topic_of(sel: u8) -> &'static str {
@@ -327,6 +333,14 @@ impl In {
         reqs == answered + q2_ok && q2_ok == comps
     }
 
+    /// publishes have been delivered completely that no handler has seen yet while handlers are gated: the receive
+    /// limits keep them waiting
+    pub fn window_shut(&self) -> bool {
+        let handled = self.conn.log.count(|r| matches!(r, Rec::HEnter { .. }));
+        let delivered = self.sent.iter().filter(|x| x.complete_step.is_some() && matches!(x.pkt, Some(Pkt::Publish { .. }))).count();
+        delivered > handled && !self.conn.gates.waiting().is_empty() && !self.conn.done()
+    }
+
     pub fn pending_rest(&self) -> bool {
         self.sent.last().is_some_and(|s| !s.rest.is_empty())
     }
@@ -388,6 +402,8 @@ impl Scenario for In {
                 rgates,
                 window_open: true,
                 bp_left: cfg.bp,
+                pause_time_left: if cfg.judge & J_C12 != 0 && cfg.ep.client_keepalive > 0 { 8 * cfg.ep.client_keepalive as u32 } else { 0 },
+                pause_started: false,
                 cfg,
             }
         })
@@ -395,6 +411,13 @@ impl Scenario for In {
 
     fn enabled(&self, quiescent: bool) -> Vec<Ev> {
         let mut v = Vec::new();
+        // a pause episode in progress: time is the only thing that happens
+        if self.pause_started && self.pause_time_left > 0 {
+            if quiescent && !self.conn.done() {
+                v.push(Ev::Wait);
+            }
+            return v;
+        }
         if !self.cfg.skip_connect && !self.handshaken() && self.cfg.ep.hs != HsMode::Gated {
             return v;
         }
@@ -430,6 +453,9 @@ impl Scenario for In {
         }
         if self.prologue_left.is_empty() && quiescent && (self.bp_left > 0 || !self.window_open) && !self.conn.done() {
             v.push(Ev::Win(!self.window_open));
+        }
+        if quiescent && !self.pause_started && self.pause_time_left > 0 && self.window_shut() {
+            v.push(Ev::Wait);
         }
         if self.prologue_left.is_empty() {
             for k in self.conn.gates.waiting() {
@@ -488,6 +514,11 @@ impl Scenario for In {
                 }
                 self.window_open = open;
                 self.conn.window(open);
+            }
+            Ev::Wait => {
+                self.pause_started = true;
+                self.pause_time_left -= 1;
+                ntex_util::time::vclock::advance(std::time::Duration::from_millis(500));
             }
         }
     }
